@@ -3,7 +3,7 @@ import FV.Model.Global
 /- op table for the process-state model (C20): `F eps <kDie> <kNet> <inf> <n> (die 2 w h | net k d1…dk | alloc 2 w h)*`
    → tolerance state after that history from a fresh process: `none` or `<dist> <area>`. -/
 namespace FV.Drv
-open FV
+open FV FV.Proc
 
 inductive Proposal | die (w h : Float) | net (dims : List Float) | alloc (w h : Float)
 
